@@ -114,7 +114,7 @@ func DecodeBytea(s []byte) ([]byte, error) {
 		}
 		return out, nil
 	}
-	var out []byte
+	out := []byte{} // the empty input is the empty value, not NULL
 	for i := 0; i < len(s); i++ {
 		if s[i] != '\\' {
 			out = append(out, s[i])
@@ -192,12 +192,20 @@ func toWire(oid uint32, v []byte, format int16) []byte {
 	}
 	switch oid {
 	case OIDInt4:
-		n, _ := strconv.ParseInt(string(v), 10, 32)
+		n, err := strconv.ParseInt(string(v), 10, 32)
+		if err != nil {
+			// not an integer: only a retyped clone (a column announced as the declared type that
+			// holds bytes the reader cannot decrypt) has such values; they travel as they are
+			return append([]byte{}, v...)
+		}
 		var b [4]byte
 		binary.BigEndian.PutUint32(b[:], uint32(int32(n)))
 		return b[:]
 	case OIDInt8:
-		n, _ := strconv.ParseInt(string(v), 10, 64)
+		n, err := strconv.ParseInt(string(v), 10, 64)
+		if err != nil {
+			return append([]byte{}, v...)
+		}
 		var b [8]byte
 		binary.BigEndian.PutUint64(b[:], uint64(n))
 		return b[:]
